@@ -1,0 +1,101 @@
+//! Off-by-default observation hooks (cargo feature `verif_hooks`).
+//!
+//! Nothing here changes engine behaviour: the hooks only report what the
+//! engine is doing to an externally installed observer.  With the feature
+//! disabled this module is not compiled at all.
+
+use std::cell::RefCell;
+use std::sync::atomic::{AtomicBool, AtomicU64, Ordering};
+use std::sync::RwLock;
+
+use crate::earley::{ParamCond, ParamExpr};
+
+/// `Parser::with_shared`: about to take the shared-lexer mutex.
+pub const SITE_SHARED_BEFORE_LOCK: u32 = 1;
+/// `Parser::with_shared`: mutex held, lexer not yet moved out.
+pub const SITE_SHARED_LOCKED: u32 = 2;
+/// `Parser::with_shared`: lexer moved back, mutex released.
+pub const SITE_SHARED_RELEASED: u32 = 3;
+/// `Parser::deep_clone`: about to take the shared-lexer mutex.
+pub const SITE_DEEP_CLONE: u32 = 4;
+/// `Parser::hidden_start` / `lexer_stats` / `get_error`: about to take the mutex.
+pub const SITE_SHARED_READ: u32 = 5;
+
+type SchedFn = dyn Fn(u32) + Send + Sync;
+
+static SCHED_ENABLED: AtomicBool = AtomicBool::new(false);
+static SCHED: RwLock<Option<Box<SchedFn>>> = RwLock::new(None);
+
+/// Install (or remove) the process-wide scheduling observer.
+pub fn set_sched_hook(f: Option<Box<SchedFn>>) {
+    let mut g = SCHED.write().unwrap();
+    SCHED_ENABLED.store(f.is_some(), Ordering::SeqCst);
+    *g = f;
+}
+
+#[inline]
+pub fn sched_point(site: u32) {
+    if SCHED_ENABLED.load(Ordering::Relaxed) {
+        if let Ok(g) = SCHED.read() {
+            if let Some(f) = g.as_ref() {
+                f(site);
+            }
+        }
+    }
+}
+
+pub static BIAS_CACHE_HITS: AtomicU64 = AtomicU64::new(0);
+pub static BIAS_CACHE_MISSES: AtomicU64 = AtomicU64::new(0);
+pub static BIAS_CACHE_STORES: AtomicU64 = AtomicU64::new(0);
+
+#[derive(Clone, Debug)]
+pub struct RuleDump {
+    pub condition: ParamCond,
+    /// (index into `GrammarDump::symbols`, parameter expression)
+    pub rhs: Vec<(usize, ParamExpr)>,
+}
+
+#[derive(Clone, Debug)]
+pub struct SymDump {
+    pub name: String,
+    pub lexeme: Option<usize>,
+    pub gen_grammar: Option<String>,
+    pub max_tokens: usize,
+    pub capture_name: Option<String>,
+    pub stop_capture_name: Option<String>,
+    pub temperature: f32,
+    pub grammar_id: usize,
+    pub is_start: bool,
+    pub parametric: bool,
+    pub rules: Vec<RuleDump>,
+}
+
+#[derive(Clone, Debug)]
+pub struct GrammarDump {
+    pub start: usize,
+    pub symbols: Vec<SymDump>,
+}
+
+type OptFn = dyn FnMut(GrammarDump, GrammarDump);
+
+thread_local! {
+    static OPT_OBSERVER: RefCell<Option<Box<OptFn>>> = const { RefCell::new(None) };
+}
+
+/// Install (or remove) this thread's observer of `compile_grammar`'s
+/// optimisation step; it receives the grammar before and after.
+pub fn set_optimize_observer(f: Option<Box<OptFn>>) {
+    OPT_OBSERVER.with(|o| *o.borrow_mut() = f);
+}
+
+pub fn optimize_observer_installed() -> bool {
+    OPT_OBSERVER.with(|o| o.borrow().is_some())
+}
+
+pub fn on_optimize(before: GrammarDump, after: GrammarDump) {
+    OPT_OBSERVER.with(|o| {
+        if let Some(f) = o.borrow_mut().as_mut() {
+            f(before, after);
+        }
+    });
+}
